@@ -159,6 +159,11 @@ func (w *World) Render(id string, r Resp, rng *rand.Rand) []byte {
 			headers = append(headers, line)
 		}
 	}
+	/* a line of blanks only is not the empty line that ends the headers (it continues the header before it); what
+	   follows it is still header section, however much it looks like a document */
+	if rng.Intn(6) == 0 {
+		headers = append(headers, pick(rng, []string{" ", "\t", "  \t "})+eol+`{"id":"https://decoy.invalid/d","type":"Note","tag":"decoy","content":"not the body"}`)
+	}
 	rng.Shuffle(len(headers), func(i, j int) { headers[i], headers[j] = headers[j], headers[i] })
 	for _, h := range headers {
 		b.WriteString(h + eol)
